@@ -20,9 +20,10 @@ import c08_gen as gen
 import c08_validate as val
 
 THEOREMS = ['C08_volume_str_counts', 'C08_write_wf', 'C08_prune_preserves_wf',
-            'C08_prune_total', 'C08_remove_empty_volumes_ok',
-            'C08_geomcomp_partition', 'C08_bc_defined',
-            'C08_wf_fileb_ok', 'C08_wf_stateb_sound']
+            'C08_prune_total', 'C08_convert_tail_wf',
+            'C08_remove_empty_volumes_ok', 'C08_geomcomp_partition',
+            'C08_bc_defined', 'C08_wf_fileb_ok', 'C08_wf_stateb_sound',
+            'C08_stage0_okb_sound']
 TRUSTED = [
     'hand-written model coq/C08/Model.v (modelled, tied by execution only)',
     'numeric fields: str(float) / numpy rendering of surface parameters and '
@@ -282,17 +283,16 @@ def run(res, tier, seed, proofs_ok):
                    f'written bytes; {n_in} runs inside wf_state)',
                    not bad['check_verdict'] and not errs,
                    f'{len(bad["check_verdict"])} disagreements')
-    res.obligation(f'tie:stage0 ({len(cases)} snapshots: refs_ok and helpers_ok '
-                   '- the hypotheses of C08_prune_preserves_wf / C08_prune_total '
-                   '- hold on the tables construct_volume_t4 returned)',
+    res.obligation(f'tie:stage0 ({len(cases)} snapshots: stage0_ok - the '
+                   'hypotheses of C08_convert_tail_wf - holds on the tables '
+                   'construct_volume_t4 returned)',
                    not bad['stage0_ok'] and not errs,
                    f'{len(bad["stage0_ok"])} snapshots outside')
     for idx in bad['stage0_ok'][:10]:
         deck_text, args, exc, _verdict = meta[idx]
         res.violation('correspondence',
                       'the tables construct_volume_t4 returned do not satisfy '
-                      'refs_ok / helpers_ok (hypotheses of '
-                      'C08_prune_preserves_wf) [options '
+                      'stage0_ok (hypotheses of C08_convert_tail_wf) [options '
                       f'{" ".join(args) or "default"}]',
                       {'input': {'deck': deck_text, 'args': args},
                        'theorem_or_correspondence': 'tie:stage0'},
